@@ -8,7 +8,8 @@ def hx(s):
     return s.encode().hex() if isinstance(s, str) else bytes(s).hex()
 
 
-VALID_NAMES = ["a", "b", "c", "d", "x y", "é", "Crate One", "zz"]
+# includes names that differ only in case or by a trailing space: lookups must tell them apart
+VALID_NAMES = ["a", "b", "c", "d", "x y", "é", "Crate One", "zz", "A", "a ", "B"]
 INVALID_NAMES = ["", "a;b", ";", "tail;"]
 
 
